@@ -23,7 +23,7 @@ import numpy as onp
 from vlib.common import loguniform, haar_so3, inplane_rot
 from vlib.oracles import c09_numpy as ref
 
-KINDS = ["monotonic", "reversing", "nonproportional", "tiny_large", "at_yield", "repeated_stretch", "volumetric"]
+KINDS = ["monotonic", "reversing", "nonproportional", "tiny_large", "at_yield", "repeated_stretch", "volumetric", "large_stretch"]
 EPS = ref.EPS
 
 AT_YIELD_DELTAS = [0.0, 0.0, 4 * EPS, -4 * EPS, 64 * EPS, -64 * EPS,
@@ -148,6 +148,29 @@ class History:
                 per = int(r.integers(4, 11))
                 k = onp.arange(1, self.n + 1)
                 self.s = self.amp * (2.0 / math.pi) * onp.arcsin(onp.sin(2 * math.pi * k / per))
+        if kind == "large_stretch":
+            # principal stretches between ~0.1 and ~10 (log stretch up to +-2.3) in an arbitrary frame with a superposed
+            # rotation of up to 180 degrees, or simple shear gamma up to 5; ramp or triangular wave; det F in [0.5, 2]
+            plane = form != "3d"
+            self.axis = onp.array([0.0, 0.0, 1.0]) if plane else r.standard_normal(3)
+            self.axis = self.axis / onp.linalg.norm(self.axis)
+            self.theta = float(r.choice([0.0, r.uniform(0, math.pi)]))
+            self.Q = inplane_rot(r.uniform(0, 2 * math.pi)) if plane else haar_so3(r)
+            self.shear = r.random() < 0.3
+            if self.shear:
+                self.gam = float(loguniform(r, 0.5, 5.0)) * float(r.choice([-1.0, 1.0]))
+            else:
+                l = r.uniform(-1, 1, 3)
+                l = l - onp.mean(l)
+                if plane:
+                    l = onp.array([l[0], -l[0], 0.0])
+                l = l * float(r.uniform(0.8, 2.3)) / onp.max(onp.abs(l))
+                if r.random() < 0.3 and not plane:
+                    l = l + r.uniform(-0.23, 0.23)
+                self.l = onp.clip(l, -2.3, 2.3)
+            k = onp.arange(1, self.n + 1)
+            per = int(r.integers(4, 11))
+            self.s = k / self.n if r.random() < 0.6 else (2.0 / math.pi) * onp.arcsin(onp.sin(2 * math.pi * k / per))
         if kind == "repeated_stretch":
             if form == "3d":
                 nvec = r.standard_normal(3)
@@ -198,6 +221,18 @@ class History:
         kind = self.kind
         dt = self._dt()
         e_old, pl_old = ref.split_state(st)
+        if kind == "large_stretch":
+            sv = float(self.s[k])
+            a = self.axis
+            Kx = onp.array([[0, -a[2], a[1]], [a[2], 0, -a[0]], [-a[1], a[0], 0]])
+            R = onp.eye(3) + math.sin(sv * self.theta) * Kx + (1 - math.cos(sv * self.theta)) * (Kx @ Kx)
+            if self.shear:
+                S = onp.eye(3)
+                S[0, 1] = sv * self.gam
+                F = R @ self.Q @ S @ self.Q.T
+            else:
+                F = R @ (self.Q * onp.exp(sv * self.l)) @ self.Q.T
+            return F - onp.eye(3), dt, "large", None
         if kind in ("monotonic", "reversing", "repeated_stretch"):
             Hn = self.s[k] * self.D
             if not _detok(Hn):
